@@ -71,12 +71,35 @@ func serialOf(hi, lo int) uint32 { return uint32(hi)<<16 | uint32(lo) }
 
 const fatRec = 1000
 
-func toRR(r rec) dns.RR {
+// spelled: the zone name in one of the specification's Spellings (Xfr!Spellings; "" = lower).
+func spelled(how string) string {
+	switch how {
+	case "upper":
+		return strings.ToUpper(zone)
+	case "mixed", "mixed2":
+		b := []byte(zone)
+		for i := range b {
+			if (i%2 == 0) == (how == "mixed") && b[i] >= 'a' && b[i] <= 'z' {
+				b[i] -= 'a' - 'A'
+			}
+		}
+		return string(b)
+	case "", "lower":
+		return zone
+	}
+	hx.Die("unknown spelling %q", how)
+	return ""
+}
+
+func toRR(r rec) dns.RR { return toRRz(r, zone) }
+
+// toRRz: the record of the zone whose name is spelled z.
+func toRRz(r rec, z string) dns.RR {
 	var s string
 	if r[0] == 1 {
-		s = fmt.Sprintf("%s 3600 IN SOA ns.example. host.example. %d 7200 3600 1209600 3600", zone, serialOf(r[1], r[2]))
+		s = fmt.Sprintf("%s 3600 IN SOA ns.example. host.example. %d 7200 3600 1209600 3600", z, serialOf(r[1], r[2]))
 	} else {
-		s = fmt.Sprintf("r%d.%s 3600 IN TXT \"record %d\"", r[1], zone, r[1])
+		s = fmt.Sprintf("r%d.%s 3600 IN TXT \"record %d\"", r[1], z, r[1])
 		if r[1] >= fatRec { // a record of about 800 octets: ninety of them do not fit one message
 			x := strings.Repeat("x", 255)
 			s += fmt.Sprintf(" \"%s\" \"%s\" \"%s\"", x, x, x)
@@ -90,13 +113,19 @@ func toRR(r rec) dns.RR {
 }
 
 // fromRR projects a received record back to the specification's vocabulary ([2] = anything else).
-func fromRR(rr dns.RR) rec {
+func fromRR(rr dns.RR) rec { return fromRRz(rr, zone) }
+
+// fromRRz: the owner names must come out in the spelling z in which they were sent.
+func fromRRz(rr dns.RR, z string) rec {
 	switch x := rr.(type) {
 	case *dns.SOA:
+		if x.Hdr.Name != z {
+			return rec{2}
+		}
 		return rec{1, int(x.Serial >> 16), int(x.Serial & 0xffff)}
 	case *dns.TXT:
 		var id int
-		if _, err := fmt.Sscanf(x.Hdr.Name, "r%d."+zone, &id); err == nil && len(x.Txt) >= 1 && x.Txt[0] == fmt.Sprintf("record %d", id) &&
+		if _, err := fmt.Sscanf(x.Hdr.Name, "r%d."+z, &id); err == nil && x.Hdr.Name == fmt.Sprintf("r%d.%s", id, z) && len(x.Txt) >= 1 && x.Txt[0] == fmt.Sprintf("record %d", id) &&
 			((id < fatRec && len(x.Txt) == 1) || (id >= fatRec && len(x.Txt) == 4 && len(x.Txt[1])+len(x.Txt[2])+len(x.Txt[3]) == 765)) {
 			return rec{0, id}
 		}
@@ -104,10 +133,12 @@ func fromRR(rr dns.RR) rec {
 	return rec{2}
 }
 
-func fromRRs(rrs []dns.RR) []rec {
+func fromRRs(rrs []dns.RR) []rec { return fromRRsz(rrs, zone) }
+
+func fromRRsz(rrs []dns.RR, z string) []rec {
 	out := []rec{}
 	for _, rr := range rrs {
-		out = append(out, fromRR(rr))
+		out = append(out, fromRRz(rr, z))
 	}
 	return out
 }
@@ -144,6 +175,7 @@ type envelope struct {
 	Sig   []int `json:"sig"` // [] or [key, mid of the envelope chained on, timers, intact]
 	Mid   int   `json:"mid"`
 	Cut   bool  `json:"cut"`
+	Gap   int   `json:"gap"` // ticks between the moment the receiver starts to wait for the envelope and its arrival
 	wire  []byte
 }
 
@@ -169,6 +201,82 @@ type script struct {
 	slowAfter   int
 	pause       time.Duration
 	readTimeout time.Duration
+	// the zone name as spelled in the query / in the owner names of the answer (Xfr!Spellings; "" = lower)
+	spellQ, spellA string
+	// the pace of the sender, in ticks of the specification (Xfr!TimeoutTicks = the transfer's ReadTimeout): every envelope
+	// arrives `pace' ticks after the receiver started to wait for it, the envelopes of a "stall" fault stallTicks; the clock
+	// is virtual (timedConn), a tick stands for a minute
+	pace, stallTicks, timeoutTicks int
+	gaps                           []int // recorder: the gap of every envelope built (overrides pace)
+	guard                          time.Duration
+}
+
+func (s *script) timed() bool { return s.timeoutTicks > 0 }
+
+// guardFor: how long run waits for the channel to be closed before it calls the run a hang (wall clock).
+func (s *script) guardFor() time.Duration {
+	if s.guard > 0 {
+		return s.guard
+	}
+	return 30 * time.Second
+}
+
+const tick = time.Minute
+
+// timedConn puts a virtual clock under the scripted connection: frame k of the script arrives at arrive[k]; a Read that
+// has to wait for it does not sleep, it moves the clock -- to the arrival, or to the read deadline if that comes first
+// (then it fails with the deadline error, as a socket does).  A deadline set by the code under test (a real instant,
+// time.Now() + timeout) is taken as "so much from now" on the virtual clock, so the only real time that enters is what
+// the code spends between computing the deadline and setting it: nothing, against ticks of a minute.
+type timedConn struct {
+	*pipe.Conn
+	mu     sync.Mutex
+	starts []int           // stream offset of the first octet of every frame
+	arrive []time.Duration // virtual time at which it is there
+	vnow   time.Duration
+	vdl    time.Duration
+	hasDL  bool
+	everDL bool // some deadline was set on the connection: the code under test bounds its reads through the connection
+	pos    int
+}
+
+func (c *timedConn) SetReadDeadline(t time.Time) error {
+	c.mu.Lock()
+	defer c.mu.Unlock()
+	c.hasDL = !t.IsZero()
+	if c.hasDL {
+		c.everDL = true
+		c.vdl = c.vnow + time.Until(t)
+	}
+	return nil
+}
+
+func (c *timedConn) SetDeadline(t time.Time) error { return c.SetReadDeadline(t) }
+
+func (c *timedConn) Read(p []byte) (int, error) {
+	c.mu.Lock()
+	k := -1
+	for i, st := range c.starts {
+		if st <= c.pos {
+			k = i
+		}
+	}
+	if k >= 0 && c.arrive[k] > c.vnow {
+		if c.hasDL && c.arrive[k] > c.vdl {
+			if c.vdl > c.vnow {
+				c.vnow = c.vdl
+			}
+			c.mu.Unlock()
+			return 0, os.ErrDeadlineExceeded
+		}
+		c.vnow = c.arrive[k]
+	}
+	c.mu.Unlock()
+	n, err := c.Conn.Read(p)
+	c.mu.Lock()
+	c.pos += n
+	c.mu.Unlock()
+	return n, err
 }
 
 // macShapes: fault kind -> number of MAC octets kept, given the length of the full MAC
@@ -194,9 +302,9 @@ func has(fs []fault, kind string, pos int) bool {
 func query(s *script) *dns.Msg {
 	q := new(dns.Msg)
 	if s.mode == "ixfr" {
-		q.SetIxfr(zone, serialOf(s.q[0], s.q[1]), "ns.example.", "host.example.")
+		q.SetIxfr(spelled(s.spellQ), serialOf(s.q[0], s.q[1]), "ns.example.", "host.example.")
 	} else {
-		q.SetAxfr(zone)
+		q.SetAxfr(spelled(s.spellQ))
 	}
 	q.Id = 0x5151
 	if s.tsig {
@@ -226,7 +334,13 @@ func build(s *script, queryOctets []byte) []envelope {
 	now := time.Now().Unix()
 	var envs []envelope
 	for i := 1; i <= len(chunks); i++ {
-		e := envelope{Recs: append([]rec{}, chunks[i-1]...), ID: true, Mid: i, Sig: []int{}}
+		e := envelope{Recs: append([]rec{}, chunks[i-1]...), ID: true, Mid: i, Sig: []int{}, Gap: s.pace}
+		if i <= len(s.gaps) {
+			e.Gap = s.gaps[i-1]
+		}
+		if has(s.faults, "stall", i) {
+			e.Gap = s.stallTicks
+		}
 		if i == 1 && has(s.faults, "nosoa", 1) && len(e.Recs) > 0 {
 			e.Recs[0] = rec{0, 0}
 		}
@@ -244,7 +358,7 @@ func build(s *script, queryOctets []byte) []envelope {
 			}
 		}
 		for _, r := range e.Recs {
-			m.Answer = append(m.Answer, toRR(r))
+			m.Answer = append(m.Answer, toRRz(r, spelled(s.spellA)))
 		}
 		if has(s.faults, "rcode", i) {
 			m.Rcode, e.Rcode = dns.RcodeServerFailure, 2
@@ -382,11 +496,15 @@ type observation struct {
 	ConnClose bool    `json:"connclosed"`
 	Extra     int     `json:"extra"`  // envelopes received after an error envelope
 	Unread    int     `json:"unread"` // scripted octets nobody read
+	// a timed run in which the code never set a deadline on the connection: if it bounds its reads at all it does so by
+	// other means (a timer of its own), which the virtual clock cannot see -- a stall is then not judged
+	unbound bool
 }
 
 // run executes one script against the real Transfer.In and returns what a user of the channel sees.
 func run(s *script) (envs []envelope, frames [][]byte, obs observation, fatal string) {
 	fc := pipe.New()
+	tc := &timedConn{Conn: fc}
 	fc.OnWrite = func(c *pipe.Conn, p []byte) {
 		if len(p) < 2 {
 			hx.Die("short write from Transfer.In")
@@ -408,6 +526,14 @@ func run(s *script) (envs []envelope, frames [][]byte, obs observation, fatal st
 			if s.seg == "prefix" { // a segment ends after the first length octet of this envelope
 				c.Bounds = append(c.Bounds, off+1)
 			}
+			if s.timed() { // the frame arrives e.Gap ticks after the previous one was read
+				at := time.Duration(e.Gap) * tick
+				if n := len(tc.arrive); n > 0 {
+					at += tc.arrive[n-1]
+				}
+				tc.starts, tc.arrive = append(tc.starts, off), append(tc.arrive, at)
+				c.Bounds = append(c.Bounds, off)
+			}
 			off += len(fr)
 			frames = append(frames, fr)
 			c.Feed(fr)
@@ -421,6 +547,9 @@ func run(s *script) (envs []envelope, frames [][]byte, obs observation, fatal st
 		c.EOF = s.eof
 	}
 	tr := &dns.Transfer{Conn: &dns.Conn{Conn: fc}, ReadTimeout: s.readTimeout}
+	if s.timed() {
+		tr = &dns.Transfer{Conn: &dns.Conn{Conn: tc}, ReadTimeout: time.Duration(s.timeoutTicks) * tick}
+	}
 	if s.tsig {
 		tr.TsigSecret = map[string]string{keyName: secretGood}
 	}
@@ -430,12 +559,15 @@ func run(s *script) (envs []envelope, frames [][]byte, obs observation, fatal st
 	}
 	obs.Delivered = [][]rec{}
 	got := 0
-	guard := time.After(30 * time.Second)
+	guard := time.After(s.guardFor())
 	for {
 		select {
 		case e, ok := <-ch:
 			if !ok {
 				obs.ChClosed = true
+				tc.mu.Lock()
+				obs.unbound = s.timed() && !tc.everDL
+				tc.mu.Unlock()
 				obs.ConnClose = fc.IsClosed()
 				obs.Unread = fc.Unread()
 				return envs, frames, obs, ""
@@ -446,7 +578,7 @@ func run(s *script) (envs []envelope, frames [][]byte, obs observation, fatal st
 			case e.Error != nil:
 				obs.Err, obs.ErrText = true, e.Error.Error()
 			default:
-				obs.Delivered = append(obs.Delivered, fromRRs(e.RR))
+				obs.Delivered = append(obs.Delivered, fromRRsz(e.RR, spelled(s.spellA)))
 			}
 			if got++; got == s.slowAfter {
 				time.Sleep(s.pause) // a slow consumer: the transfer has to wait for it
@@ -468,10 +600,31 @@ type vec struct {
 	Tsig      bool    `json:"tsig"`
 	Fault     fault   `json:"fault"`
 	Tail      bool    `json:"tail"`
+	Sq        string  `json:"sq"` // spelling of the zone name in the query / in the answer (absent = lower)
+	Sa        string  `json:"sa"`
+	Pace      int     `json:"pace"`    // ticks between envelopes
+	Timeout   int     `json:"timeout"` // Xfr!TimeoutTicks
+	Stall     int     `json:"stall"`   // the gap of a "stall" fault, in ticks
 	Delivered [][]rec `json:"delivered"`
 	Err       bool    `json:"err"`
 	Ambig     bool    `json:"ambig"`
 	Used      int     `json:"used"`
+}
+
+// scriptOf: the behaviour of a vector as a script (delivery details left to the caller).
+func scriptOf(v *vec) script {
+	s := script{mode: v.Mode, q: [2]int{v.Q[0], v.Q[1]}, chunks: chunksOf(v.R, v.Lens), tsig: v.Tsig, tail: v.Tail,
+		spellQ: v.Sq, spellA: v.Sa, pace: v.Pace, stallTicks: v.Stall}
+	if v.Fault.Kind != "none" {
+		s.faults = []fault{v.Fault}
+	}
+	if v.Pace > 0 || v.Fault.Kind == "stall" {
+		if v.Timeout <= 0 || (v.Fault.Kind == "stall" && v.Stall <= v.Timeout) {
+			hx.Die("timed vector without timeout / stall ticks: %+v", *v)
+		}
+		s.timeoutTicks = v.Timeout
+	}
+	return s
 }
 
 func chunksOf(R []rec, lens []int) [][]rec {
@@ -496,17 +649,14 @@ func replay(path string) {
 		nslow = 400
 	}
 	hx.ReadNDJSON(path, func(i int, v *vec) {
-		if len(slow) < nslow && len(v.Delivered) >= 1 && !v.Ambig && i%(97+len(slow)) == 0 {
+		if len(slow) < nslow && len(v.Delivered) >= 1 && !v.Ambig && v.Pace == 0 && v.Fault.Kind != "stall" && i%(97+len(slow)) == 0 {
 			slow = append(slow, v)
 		}
 		if v.Kind != "xfr" {
 			hx.Die("unknown vector kind %q", v.Kind)
 		}
-		seen[fmt.Sprintf("%s|%v|%v|%v|%v|%v|%v", v.Mode, v.Q, v.R, v.Lens, v.Tsig, v.Fault, v.Tail)] = true
-		s := script{mode: v.Mode, q: [2]int{v.Q[0], v.Q[1]}, chunks: chunksOf(v.R, v.Lens), tsig: v.Tsig, tail: v.Tail}
-		if v.Fault.Kind != "none" {
-			s.faults = []fault{v.Fault}
-		}
+		seen[fmt.Sprintf("%s|%v|%v|%v|%v|%v|%v|%s|%s|%d", v.Mode, v.Q, v.R, v.Lens, v.Tsig, v.Fault, v.Tail, v.Sq, v.Sa, v.Pace)] = true
+		s := scriptOf(v)
 		cuts := []int{0}
 		if v.Fault.Kind == "cut" { // inside the length prefix, after it, after the header, in the middle, one octet short
 			cuts = []int{1, 2, 14, 0, -1}
@@ -581,11 +731,8 @@ func replay(path string) {
 	var mu sync.Mutex
 	for _, v := range slow {
 		for k := 1; k <= len(v.Delivered); k++ {
-			s := script{mode: v.Mode, q: [2]int{v.Q[0], v.Q[1]}, chunks: chunksOf(v.R, v.Lens), tsig: v.Tsig, tail: v.Tail, eof: k%2 == 0,
-				slowAfter: k, pause: 300 * time.Millisecond, readTimeout: 40 * time.Millisecond}
-			if v.Fault.Kind != "none" {
-				s.faults = []fault{v.Fault}
-			}
+			s := scriptOf(v)
+			s.eof, s.slowAfter, s.pause, s.readTimeout = k%2 == 0, k, 300*time.Millisecond, 40*time.Millisecond
 			wg.Add(1)
 			go func(v *vec, s script) {
 				defer wg.Done()
@@ -632,6 +779,14 @@ func numeric(q []int) uint32 { return serialOf(q[0], q[1]) }
 
 func one(v *vec, s *script, sum *hx.Summary) {
 	envs, frames, obs, fatal := run(s)
+	// the guard is wall-clock time: on an overloaded machine a starved process can exceed it without any hang in the
+	// code -- the scripted connection is deterministic, so a real hang reproduces: two more runs with a longer guard,
+	// the first one that ends is judged
+	for try := 0; fatal == "hang" && try < 2; try++ {
+		s2 := *s
+		s2.guard = 4 * time.Minute
+		envs, frames, obs, fatal = run(&s2)
+	}
 	if fatal == "hang" {
 		sum.Mis("xfr/in-"+v.Mode+":hang", "Transfer.In did not close its channel on an in-memory connection", v)
 		return
@@ -641,7 +796,7 @@ func one(v *vec, s *script, sum *hx.Summary) {
 		return
 	}
 	pre := "xfr/in-" + v.Mode + ":"
-	what := fmt.Sprintf("%s q=%d stream=%v partition=%v tsig=%v fault=%v tail=%v eof=%v seg=%s@%d fat=%d:%d later-questions=%q: ", v.Mode, numeric(v.Q), v.R, v.Lens, v.Tsig, v.Fault, v.Tail, s.eof, s.seg, s.segAt, s.fatEnv, s.fatSize, s.qd)
+	what := fmt.Sprintf("%s of %q q=%d stream=%v (owner names under %q) partition=%v tsig=%v fault=%v tail=%v eof=%v seg=%s@%d fat=%d:%d later-questions=%q, an envelope every %d ticks, ReadTimeout %d ticks: ", v.Mode, spelled(s.spellQ), numeric(v.Q), v.R, spelled(s.spellA), v.Lens, v.Tsig, v.Fault, v.Tail, s.eof, s.seg, s.segAt, s.fatEnv, s.fatSize, s.qd, s.pace, s.timeoutTicks)
 	got := fmt.Sprintf("delivered %v, error %q", obs.Delivered, obs.ErrText)
 	if !obs.ChClosed || !obs.ConnClose {
 		sum.Mis(pre+"not-closed", what+fmt.Sprintf("channel closed %v, connection closed %v", obs.ChClosed, obs.ConnClose), v)
@@ -649,6 +804,9 @@ func one(v *vec, s *script, sum *hx.Summary) {
 	}
 	if obs.Extra > 0 {
 		sum.Mis(pre+"envelope-after-error", what+got, v)
+		return
+	}
+	if obs.unbound && v.Fault.Kind == "stall" {
 		return
 	}
 	if v.Ambig { // a validly truncated MAC: RFC 8945 leaves acceptance to policy; only the closure is asserted
@@ -687,6 +845,15 @@ func one(v *vec, s *script, sum *hx.Summary) {
 		key = pre + "error-on-clean-transfer:" + v.Fault.Kind
 	default:
 		key = pre + "records-differ:" + v.Fault.Kind
+	}
+	// parameter class of the behaviour, where it is one of the variants
+	switch {
+	case v.Pace > 0:
+		key += ":paced-sender"
+	case v.Sq != v.Sa:
+		key += ":zone-name-case"
+	case server == 0 && len(v.R) > 0 && v.R[0][0] == 1 && v.Fault.Kind == "none":
+		key += ":server-serial-0"
 	}
 	sum.Mis(key, what+got+fmt.Sprintf("; specification: delivered %v, error %v", v.Delivered, v.Err), v)
 }
@@ -735,6 +902,12 @@ func recordIn(out string, n int) {
 			base = uint32(1<<32 - 1 - rnd.Intn(500))
 		}
 		top := 10 + rnd.Intn(1000) // the server's serial is base + top (mod 2^32)
+		switch rnd.Intn(12) {      // the zero value is a serial like any other
+		case 0:
+			base = -uint32(top) // the server's serial is exactly 0
+		case 1:
+			base = 0 // the client's is
+		}
 		serial := base + uint32(top)
 		var R []rec
 		id := 1
@@ -796,6 +969,18 @@ func recordIn(out string, n int) {
 		// faults
 		k := len(s.chunks)
 		kinds := []string{"nosoa", "rcode", "id", "close", "cut"}
+		// one transfer in three on the clock: the sender paces the envelopes (each within the read timeout of Xfr!TimeoutTicks
+		// = 3 ticks, whatever that adds up to); fault "stall": silent for longer
+		if rnd.Intn(3) == 0 {
+			s.timeoutTicks = 3
+			for i := 0; i <= k; i++ {
+				s.gaps = append(s.gaps, []int{0, 1, 2, 2}[rnd.Intn(4)])
+			}
+			s.stallTicks = []int{4, 5, 9, 1000}[rnd.Intn(4)]
+			kinds = append(kinds, "stall")
+		}
+		s.spellQ = []string{"lower", "lower", "upper", "mixed", "mixed2"}[rnd.Intn(5)]
+		s.spellA = []string{"lower", "lower", "upper", "mixed", "mixed2"}[rnd.Intn(5)]
 		if s.tsig {
 			kinds = append(kinds, "alter", "unsign", "wrongkey", "drop", "dup", "swap", "hdrid", "macempty", "mac1", "mac9", "mac10", "machalf", "macminus1", "macext")
 		}
@@ -834,17 +1019,24 @@ func recordIn(out string, n int) {
 				s.seg = "prefix"
 			}
 		}
-		if rnd.Intn(25) == 0 { // a consumer that pauses well beyond the transfer's read timeout
+		if rnd.Intn(25) == 0 && !s.timed() { // a consumer that pauses well beyond the transfer's read timeout
 			s.slowAfter, s.pause, s.readTimeout = 1+rnd.Intn(k), 250*time.Millisecond, 40*time.Millisecond
 		}
 		envs, _, obs, fatal := run(&s)
+		for try := 0; fatal == "hang" && try < 2; try++ { // (wall-clock guard: see one)
+			s.guard = 4 * time.Minute
+			envs, _, obs, fatal = run(&s)
+		}
 		sum.Evaluations++
 		if fatal != "" {
 			sum.Mis("xfr/in-"+s.mode+":"+strings.SplitN(fatal, ":", 2)[0], fatal, desc)
 			continue
 		}
+		if obs.unbound && len(s.faults) > 0 { // (a stall may be among them)
+			continue
+		}
 		w.Emit(inEvent{Ev: "in", I: c + 1, Mode: s.mode, Q: []int{s.q[0], s.q[1]}, Tsig: s.tsig, EOF: s.eof, Envs: envs, Obs: obs,
-			Desc: fmt.Sprintf("%s, %d records in %d envelopes, faults %v, tail %v, segmentation %s@%d, envelope %d padded to %d octets, consumer pausing after envelope %d, later questions %q", desc, len(R), len(lens), s.faults, s.tail, s.seg, s.segAt, s.fatEnv, s.fatSize, s.slowAfter, s.qd)})
+			Desc: fmt.Sprintf("%s, %d records in %d envelopes, faults %v, tail %v, segmentation %s@%d, envelope %d padded to %d octets, consumer pausing after envelope %d, later questions %q, zone spelled %q in the query and %q in the answer, gaps %v stall %d ReadTimeout %d ticks", desc, len(R), len(lens), s.faults, s.tail, s.seg, s.segAt, s.fatEnv, s.fatSize, s.slowAfter, s.qd, spelled(s.spellQ), spelled(s.spellA), s.gaps, s.stallTicks, s.timeoutTicks)})
 	}
 	sum.Nontrivial = w.N
 	sum.Print()
@@ -868,20 +1060,22 @@ type tsigEv struct {
 }
 
 type outEvent struct {
-	Ev     string  `json:"ev"`
-	I      int     `json:"i"`
-	Mode   string  `json:"mode"`
-	Q      []int   `json:"q"`
-	Chunks [][]rec `json:"chunks"` // what the handler fed to Transfer.Out
-	Wire   [][]rec `json:"wire"`   // the answer sections observed on the wire, per message
-	IDs    bool    `json:"ids"`    // every message carried the query's ID, QR and AA set, RCODE 0
-	Signed  int    `json:"signed"`  // messages carrying a TSIG
-	Variant string `json:"variant"` // the request was "signed" (and verifies), signed with a "badsecret", or "unsigned"
-	OutErr  bool   `json:"outerr"`  // Transfer.Out returned an error to the handler
-	Desc    string `json:"desc"`
+	Ev      string  `json:"ev"`
+	I       int     `json:"i"`
+	Mode    string  `json:"mode"`
+	Q       []int   `json:"q"`
+	Chunks  [][]rec `json:"chunks"`  // what the handler fed to Transfer.Out
+	Wire    [][]rec `json:"wire"`    // the answer sections observed on the wire, per message
+	IDs     bool    `json:"ids"`     // every message carried the query's ID, QR and AA set, RCODE 0
+	Signed  int     `json:"signed"`  // messages carrying a TSIG
+	Variant string  `json:"variant"` // the request was "signed" (and verifies), signed with a "badsecret", or "unsigned"
+	OutErr  bool    `json:"outerr"`  // Transfer.Out returned an error to the handler
+	Desc    string  `json:"desc"`
 }
 
-func limbs48(t uint64) []int { return []int{int(t >> 32 & 0xffff), int(t >> 16 & 0xffff), int(t & 0xffff)} }
+func limbs48(t uint64) []int {
+	return []int{int(t >> 32 & 0xffff), int(t >> 16 & 0xffff), int(t & 0xffff)}
+}
 
 // recordOut drives the sending side: a real dns.Server on an in-memory listener, handler = Transfer.Out.
 // Every connection carries one to three requests back to back (RFC 5936 4.1) -- the server keeps one
@@ -1012,9 +1206,23 @@ func recordOut(out string, n int) {
 			if special == "late last envelope" {
 				variant = "signed"
 			}
+			// other records in the additional section of the request: an EDNS0 OPT record (RFC 6891; what dig and the
+			// common secondaries send) -- before the TSIG, which stays the last record (RFC 8945 5.1); whatever the
+			// sender makes of it, the rules for the answer are the same
+			edns := serialNo == 2 || rnd.Intn(3) == 0
+			if serialNo == 2 {
+				variant = "signed"
+			}
 			q := new(dns.Msg)
 			q.SetAxfr(zone)
 			q.Id = uint16(rnd.Intn(1 << 16))
+			if edns {
+				q.SetEdns0([]uint16{512, 1232, 4096, 65535}[rnd.Intn(4)], rnd.Intn(2) == 0)
+				if rnd.Intn(3) == 0 {
+					o := q.IsEdns0()
+					o.Option = append(o.Option, &dns.EDNS0_COOKIE{Code: dns.EDNS0COOKIE, Cookie: "24a5ac1223344556"})
+				}
+			}
 			var qo []byte
 			now := uint64(time.Now().Unix())
 			switch variant {
@@ -1056,6 +1264,9 @@ func recordOut(out string, n int) {
 			what := fmt.Sprintf("%s, request %d of %d on its connection", variant, rq+1, nreq)
 			if special != "" {
 				what += ", " + special
+			}
+			if edns {
+				what += ", request with an EDNS0 OPT record"
 			}
 			// (1) what the server said about the request's TSIG: judged like any verification
 			idx++
